@@ -57,8 +57,8 @@ func drawRCase(t *rapid.T, o rOpts) rt.Case {
 			c.Ops = append(c.Ops, rt.Op{K: "trigger", DH: rapid.SampledFrom([]int{0, 0, 0, 0, -1}).Draw(t, "dh"), DV: rapid.SampledFrom([]int{0, 0, 0, -1, -2}).Draw(t, "dv")})
 		case "sync":
 			c.Ops = append(c.Ops, rt.Op{K: "sync", DH: rapid.SampledFrom([]int{-2, -1, 0, 0, 1, 1, 2, 3}).Draw(t, "dh")})
-		case "oldsync": // settle, sync below the current height, settle: must change nothing
-			c.Ops = append(c.Ops, rt.Op{K: "settle"}, rt.Op{K: "sync", DH: rapid.SampledFrom([]int{-1, -2, -3}).Draw(t, "dh")}, rt.Op{K: "settle"})
+		case "oldsync": // settle, sync below the current height (DH=0: the block just below it), settle: must change nothing
+			c.Ops = append(c.Ops, rt.Op{K: "settle"}, rt.Op{K: "sync", DH: rapid.SampledFrom([]int{0, 0, -1, -2, -3}).Draw(t, "dh")}, rt.Op{K: "settle"}, rt.Op{K: "sleep", N: 0})
 		case "burst":
 			c.Ops = append(c.Ops, rt.Op{K: "burst", DH: rapid.SampledFrom([]int{-1, 0, 1, 2}).Draw(t, "dh"), N: rapid.IntRange(2, 6).Draw(t, "n")})
 		case "sleep":
@@ -315,6 +315,33 @@ func cancelTime(r *rt.Run) time.Time {
 	return time.Time{}
 }
 
+// ---- C19 (runtime part): a trigger for the node's current position is acted upon (the node leaves that view), whatever the
+// two loops were doing when it arrived. Judged for the LAST trigger op of a run when it named the position the node was at:
+// positions only move forward, so if the node is still there at final quiescence the trigger was lost or ignored.
+
+func checkC19R(r *rt.Run) *rViolation {
+	if !r.FinalSettled || r.H.Sch == nil {
+		return nil
+	}
+	last := -1
+	for i, rec := range r.Records {
+		if rec.Op.K == "trigger" {
+			last = i
+		}
+	}
+	if last < 0 {
+		return nil
+	}
+	rec := r.Records[last]
+	if !rec.Forwarded || rec.AbsH != rec.H0 || rec.AbsV != rec.V0 {
+		return nil
+	}
+	if r.FinalH == rec.AbsH && r.FinalV == rec.AbsV {
+		return &rViolation{"current-trigger-had-no-effect", fmt.Sprintf("the election trigger for (h=%d,v=%d), the node's position when it was delivered to the main loop (gates closed then: %v), was never acted upon: the node is still at (h=%d,v=%d) at final quiescence", rec.AbsH, rec.AbsV, rec.BlockedAtStart, r.FinalH, r.FinalV)}
+	}
+	return nil
+}
+
 // ---- C16: shutdown is complete
 
 func checkC16(r *rt.Run) *rViolation {
@@ -428,7 +455,9 @@ func gateOverlap(r *rt.Run, kinds ...string) bool {
 
 func TestC13R(t *testing.T) {
 	o := rOpts{Focus: "C13", MaxOps: 14, Kinds: []string{"round", "round", "round", "round", "plan", "trigger", "trigger", "sync", "sync", "burst", "release", "settle", "sleep", "flood", "elect"}}
-	rProperty(t, o, checkC13, func(r *rt.Run) bool { return gateOverlap(r, "sync", "burst", "trigger") || len(r.Case.Cfg.FailCommitAt) > 0 }, nil)
+	rProperty(t, o, checkC13, func(r *rt.Run) bool {
+		return gateOverlap(r, "sync", "burst", "trigger") || len(r.Case.Cfg.FailCommitAt) > 0
+	}, nil)
 }
 
 func TestC14R(t *testing.T) {
@@ -466,6 +495,39 @@ func TestC16R(t *testing.T) {
 			c.Cfg.BaseMs = rapid.IntRange(2, 12).Draw(t, "basems")
 		}
 		c.Ops = append(c.Ops, rt.Op{K: "cancel"}, rt.Op{K: "callcancelled"})
+	})
+}
+
+// C19, runtime part (fake scheduler: the harness plays the timer goroutine). Half of the cases follow a template in which two
+// triggers arrive during ONE worker step: the first while the worker sits in the commit callback of height h (it stays parked in
+// the hand-over slot), the second - for the new position (h+1,0) - while the same step sits in an SPI call of the next term.
+func TestC19R(t *testing.T) {
+	o := rOpts{Focus: "C19", MaxOps: 10, Kinds: []string{"round", "round", "plan", "plan", "trigger", "trigger", "trigger", "release", "settle", "sleep", "elect", "sync"}}
+	rProperty(t, o, checkC19R, func(r *rt.Run) bool { return gateOverlap(r, "trigger") }, func(t *rapid.T, c *rt.Case) {
+		c.Cfg.CommitteeFailFirst = 0
+		if rapid.Bool().Draw(t, "template") {
+			k := rapid.IntRange(0, 2).Draw(t, "rounds-before")
+			second := rapid.SampledFrom([]string{"propose", "propose", "committee"}).Draw(t, "second-gate")
+			if second == "propose" { // the node must lead view 0 of the height after the gated commit: height k+2
+				c.Cfg.Me = ((k + 1) * c.Cfg.Rot) % c.Cfg.N
+			}
+			c.Cfg.FailCommitAt = nil
+			var ops []rt.Op
+			for i := 0; i < k; i++ {
+				ops = append(ops, rt.Op{K: "round", Order: "prc"})
+			}
+			ops = append(ops, rt.Op{K: "plan", Kind: "commit", Policy: "hold"}, rt.Op{K: "round", Order: "prc"}, rt.Op{K: "settle"})
+			if rapid.IntRange(0, 3).Draw(t, "first-trigger") > 0 {
+				ops = append(ops, rt.Op{K: "trigger", DV: rapid.SampledFrom([]int{0, 0, -1}).Draw(t, "dv1")})
+			}
+			ops = append(ops, rt.Op{K: "plan", Kind: second, Policy: rapid.SampledFrom([]string{"hold", "hold", "ctx"}).Draw(t, "second-policy")}, rt.Op{K: "release"}, rt.Op{K: "settle"})
+			ops = append(ops, rt.Op{K: "trigger"})
+			if rapid.Bool().Draw(t, "release-after") {
+				ops = append(ops, rt.Op{K: "release"})
+			}
+			ops = append(ops, rt.Op{K: "settle"})
+			c.Ops = ops
+		}
 	})
 }
 
@@ -556,4 +618,5 @@ func init() {
 	mk("C15", checkC15)
 	mk("C16", checkC16)
 	mk("C12", checkC12R)
+	mk("C19", checkC19R)
 }
